@@ -29,7 +29,10 @@ fn backend_case(ctx: &mut Ctx, fields: &[Field], rows: &[Val], label: &str) {
     let a2 = f2.as_ref().map(|f2| guarded(|| serde_arrow::to_arrow2(f2, rows).map_err(|e| e.to_string())));
     ctx.count(&format!("{}:marrow_{}:arrow_{}:batch_{}:arrow2_{}", label, m.class(), a.class(), rb.class(), a2.as_ref().map(|x| x.class()).unwrap_or("n/a")));
     let mut fails: Vec<(&str, String)> = vec![];
-    let ok_m = matches!(m, Out::Ok(_));
+    // zero-sized fixed types: marrow's own array type holds them, its arrow conversions cannot (the crate
+    // answers with an error): the arrow-side front ends must agree among themselves and never panic
+    let ok_m = if label == "zero_sized" { matches!(a, Out::Ok(_)) } else { matches!(m, Out::Ok(_)) };
+    if let Some(Out::Panic(_)) = &a2 { fails.push(("panic", "to_arrow2 panics".into())); }
     if matches!(a, Out::Ok(_)) != ok_m { fails.push(("back_ends_disagree_on_success", format!("to_marrow {} but to_arrow {}", m.class(), a.class()))); }
     if matches!(rb, Out::Ok(_)) != ok_m { fails.push(("back_ends_disagree_on_success", format!("to_marrow {} but to_record_batch {}", m.class(), rb.class()))); }
     if let Some(x) = &a2 { if matches!(x, Out::Ok(_)) != ok_m { fails.push(("back_ends_disagree_on_success", format!("to_marrow {} but to_arrow2 {}", m.class(), x.class()))); } }
@@ -74,5 +77,17 @@ pub fn run(ctx: &mut Ctx) {
         let mut inj = Inject { countdown: if inject { rng.below(nrows * 3) as i32 } else { -1 }, what: None };
         let rows: Vec<Val> = (0..nrows).map(|_| arrgen::gen_record(&mut rng, &fields, &mut inj)).collect();
         backend_case(ctx, &fields, &rows, if inject { "injected" } else { "valid" });
+    }
+    // directed: zero-sized fixed types at the top level and below every kind of parent, 0 and 2 rows
+    let mut rng = ctx.rng.fork();
+    for leaf in [DataType::FixedSizeBinary(0), DataType::FixedSizeList(Box::new(Field { name: "element".into(), data_type: DataType::Int8, nullable: false, metadata: Default::default() }), 0)] {
+        for parent in 0..8usize { for nullable in [false, true] {
+            let Some((field, _)) = crate::c18::under_parent(parent, &leaf, nullable) else { continue };
+            for nrows in [0usize, 2] {
+                let mut none = Inject { countdown: -1, what: None };
+                let rows: Vec<Val> = (0..nrows).map(|_| Val::Struct(vec![("c".to_string(), arrgen::gen_val(&mut rng, &field, &mut none))], 0)).collect();
+                backend_case(ctx, std::slice::from_ref(&field), &rows, "zero_sized");
+            }
+        } }
     }
 }
